@@ -187,7 +187,6 @@ package rapidcore
 //@ funcfield Server.InternalStateGetter
 //@   modifies nothing
 //@ func (*Server).FastInvoke$1
-//@   requires i != nil
 //@   ensures [nothing-dispatched-after-a-reset] old(s.invoker) == nil ==> delta(InvokeDispatched) == 0 && delta(InvokeDoneSent) == 1 && delta(DefaultErrorSent) == 0
 //@   ensures [dispatched-once] old(s.invoker) != nil ==> delta(InvokeDispatched) == 1 && delta(InvokeWaited) == 1 && first(InvokeDispatched) < first(InvokeWaited)
 //@   ensures [failure-answers-then-done] delta(InvokeFailedHere) == 1 ==> delta(DefaultErrorSent) == 1 && delta(InvokeDoneSent) == 1 && first(DefaultErrorSent) < first(InvokeDoneSent) && delta(CachedInitErrorRead) == 1
